@@ -44,4 +44,6 @@ def obligations(tier: str) -> list[Ob]:
         o.params["replay_func"] = "vlib.props.C13:replay"
     obs += skeleton_obs("C13", "model", ["dflt_"], tier, names=["defaults"], label="default_instances")
     obs += skeleton_obs("C13", "model", ["dflt_"], tier, names=["defaults"], config={"literal_enums": True}, label="default_instances-literal-enums")
+    # parameters: leaving an argument out sends exactly the declared default, in every location (request oracle)
+    obs += skeleton_obs("C13", "endpoint", ["req_"], tier, names=["params"], label="parameter-defaults")
     return obs
